@@ -85,6 +85,24 @@ def main(argv=None):
     }
     if hasattr(mod, 'extra_coverage'):
         cov.update(mod.extra_coverage(m, a.tier))
+    if m.get('linecov'):
+        # which lines of the files the property is anchored in did the workload execute (sys.monitoring LINE events in every shard)
+        try:
+            anchored = []
+            with open(os.path.join(harness.VERIF, 'properties.jsonl')) as f:
+                for line in f:
+                    pr = json.loads(line)
+                    if pr['id'] == pid:
+                        anchored = [x[len('parso/'):] for x in pr.get('anchors', {}).get('files', []) if x.startswith('parso/') and x.endswith('.py')]
+            lc = {}
+            for rel in anchored:
+                ex, _ = harness.executable_lines(os.path.join(harness.REPO, 'parso', rel))
+                got = {ln for fn, ln in m['linecov'] if fn == rel}
+                miss = sorted(ex - got)
+                lc[rel] = {'executable_lines': len(ex), 'executed': len(ex) - len(miss), 'never_executed_lines': miss[:80]}
+            cov['anchored_code_lines'] = lc
+        except Exception as e:
+            cov['anchored_code_lines'] = {'error': repr(e)}
     if inconclusive:
         cov['inconclusive_reasons'] = inconclusive[:10]
     ev = {'property_id': pid, 'tier': a.tier, 'seed': seed, 'level': getattr(mod, 'LEVEL', 'exploration'),
